@@ -5,6 +5,7 @@
 //   static <lay> N s1..sN | c1..cN        -> the static calculate_index of the Morton / Hilbert layer
 //   convpos <lay> N s1..sN | c1..cN       -> "<storage position of that coordinate after a converting construction> <matches>"
 //   alloc  <lay> N s1..sN                 -> storage length allocated when converting a row-major field
+//   allocct <lay> <ct> N s1..sN           -> "<storage length> <cells of the source not found in the target>" with coordinate type ct
 #include <covfie/core/backend/primitive/array.hpp>
 #include <covfie/core/backend/primitive/identity.hpp>
 #include <covfie/core/backend/transformer/hilbert.hpp>
@@ -83,6 +84,52 @@ std::string run_alloc(const std::vector<u64> & sz) {
   field<LA> dst(src);
   return std::to_string(dst.backend().get_backend().get_configuration()[0]);
 }
+// the same with the coordinate type C on both sides (narrow coordinate types: the storage length must not be computed in C)
+template <int L, typename C, std::size_t N>
+std::string run_allocct(const std::vector<u64> & sz) {
+  using A = backend::array<vector::float1>;
+  using V = vector::vector_d<C, N>;
+  using SA = backend::strided<V, A>;
+  std::size_t total = 1; for (auto s : sz) total *= s;
+  typename SA::configuration_t scfg; for (std::size_t k = 0; k < N; ++k) scfg[k] = sz[k];
+  field<SA> src(make_parameter_pack(std::move(scfg), typename A::configuration_t{total}));
+  using LA = typename layer<L, V, A>::type;
+  field<LA> dst(src);
+  // every cell of the source must be found again in the target (written through the source view, read through the target's)
+  typename field<SA>::view_t sv(src);
+  std::vector<u64> c(N, 0);
+  for (u64 k = 0; k < total; ++k) {
+    typename field<SA>::coordinate_t cc; for (std::size_t d = 0; d < N; ++d) cc[d] = static_cast<C>(c[d]);
+    sv.at(cc)[0] = static_cast<float>(k + 1);
+    for (std::size_t d = N; d-- > 0;) { if (++c[d] < sz[d]) break; c[d] = 0; }
+  }
+  field<LA> dst2(src);
+  typename field<LA>::view_t dv(dst2);
+  std::fill(c.begin(), c.end(), 0);
+  u64 wrong = 0;
+  for (u64 k = 0; k < total; ++k) {
+    typename field<LA>::coordinate_t cc; for (std::size_t d = 0; d < N; ++d) cc[d] = static_cast<C>(c[d]);
+    if (dv.at(cc)[0] != static_cast<float>(k + 1)) ++wrong;
+    for (std::size_t d = N; d-- > 0;) { if (++c[d] < sz[d]) break; c[d] = 0; }
+  }
+  return std::to_string(dst.backend().get_backend().get_configuration()[0]) + " " + std::to_string(wrong);
+}
+template <int L, typename C>
+std::string allocctN(std::size_t N, const std::vector<u64> & sz) {
+  if constexpr (L == 3) { if (N == 2) return run_allocct<L, C, 2>(sz); return "unsupported"; }
+  else {
+    switch (N) { case 1: return run_allocct<L, C, 1>(sz); case 2: return run_allocct<L, C, 2>(sz); case 3: return run_allocct<L, C, 3>(sz); }
+    return "unsupported";
+  }
+}
+template <int L>
+std::string allocctC(const std::string & ct, std::size_t N, const std::vector<u64> & sz) {
+  if (ct == "u64") return allocctN<L, std::size_t>(N, sz);
+  if (ct == "u32") return allocctN<L, unsigned>(N, sz);
+  if (ct == "u16") return allocctN<L, unsigned short>(N, sz);
+  if (ct == "u8") return allocctN<L, unsigned char>(N, sz);
+  return "unsupported";
+}
 // where does the library's converting constructor put coordinate `co`? (storage position observed directly, not through at())
 template <int L, std::size_t N>
 std::string run_convpos(const std::vector<u64> & sz, const std::vector<u64> & co) {
@@ -149,13 +196,14 @@ int main() {
   while (std::getline(std::cin, line)) {
     std::istringstream is(line);
     std::string op, lay, ct = "u64"; std::size_t N = 0;
-    is >> op >> lay; if (op == "idx") is >> ct; is >> N;
+    is >> op >> lay; if (op == "idx" || op == "allocct") is >> ct; is >> N;
     std::vector<u64> sz(N), co(N); std::string bar;
     for (auto & s : sz) is >> s;
-    if (op != "alloc") { is >> bar; for (auto & c : co) is >> c; }
+    if (op != "alloc" && op != "allocct") { is >> bar; for (auto & c : co) is >> c; }
     std::string r = "unsupported";
     int L = layId(lay);
-    if (op == "idx") { r = L == 0 ? idxC<0>(ct, N, sz, co) : L == 1 ? idxC<1>(ct, N, sz, co) : L == 2 ? idxC<2>(ct, N, sz, co) : L == 3 ? idxC<3>(ct, N, sz, co) : r; }
+    if (op == "allocct") { r = L == 1 ? allocctC<1>(ct, N, sz) : L == 2 ? allocctC<2>(ct, N, sz) : L == 3 ? allocctC<3>(ct, N, sz) : r; }
+    else if (op == "idx") { r = L == 0 ? idxC<0>(ct, N, sz, co) : L == 1 ? idxC<1>(ct, N, sz, co) : L == 2 ? idxC<2>(ct, N, sz, co) : L == 3 ? idxC<3>(ct, N, sz, co) : r; }
     else { r = L == 0 ? otherN<0>(op, N, sz, co) : L == 1 ? otherN<1>(op, N, sz, co) : L == 2 ? otherN<2>(op, N, sz, co) : L == 3 ? otherN<3>(op, N, sz, co) : r; }
     std::cout << r << std::endl;
   }
